@@ -52,8 +52,11 @@ MUTANTS = [
     ("c03-pref64-sizes", CP, "case 96, 64, 56, 48, 40, 32:", "case 96, 64, 56, 48, 40, 32, 33:", ["C02", "C03"]),
     # C04
     ("c04-invert", CC, "if ra.RouterLifetime > 0 && !forwarding {", "if ra.RouterLifetime > 0 && forwarding {", ["C04", "C01"]),
-    ("c04-api-true", H, "ra, _, err := iface.RouterAdvertisement(forwarding)", "ra, _, err := iface.RouterAdvertisement(true)", ["C04", "C17"]),
-    ("c04-shutdown-skip-state", A, "\tcfg := a.cfg\n\tcfg.DefaultLifetime = 0\n", "\tcfg := a.cfg\n\tcfg.DefaultLifetime = 0\n\tcfg.Managed = cfg.Managed && cfg.DefaultLifetime != 0\n", ["C04", "C08"]),
+    ("c04-api-true", H, "ra, _, err := iface.RouterAdvertisement(forwarding)", "ra, _, err := iface.RouterAdvertisement(forwarding || true)", ["C04", "C17"]),
+    ("c04-cache-forwarding", [
+        (A, "\tminDelayBetweenRAs time.Duration\n}", "\tminDelayBetweenRAs time.Duration\n\tfwd, fwdKnown      bool\n}"),
+        (A, "\tforwarding, err := a.cctx.state.IPv6Forwarding(ifi.Name)\n", "\tif a.fwdKnown {\n\t\tra, _, err := ifi.RouterAdvertisement(a.fwd)\n\t\treturn ra, err\n\t}\n\tforwarding, err := a.cctx.state.IPv6Forwarding(ifi.Name)\n\ta.fwd, a.fwdKnown = forwarding, err == nil\n"),
+     ], None, None, ["C04"]),
     # C05
     ("c05-initial-le", A, "if i < maxInitialAdv && d > maxInitialAdvInterval {", "if i <= maxInitialAdv && d > maxInitialAdvInterval {", ["C05"]),
     ("c05-drop-min", A, "d = (min + time.Duration(", "d = (0 + time.Duration(", ["C05"]),
@@ -66,7 +69,6 @@ MUTANTS = [
     ("c07-fixed-delay", A, "delay := time.Duration(prng.Int63n(maxRADelay.Nanoseconds())) * time.Nanosecond", "delay := maxRADelay + time.Duration(prng.Int63n(2))", ["C07"]),
     ("c07-drop-when-full", A, "\t\t\tif ip.IsValid() {\n\t\t\t\tipC <- ip\n\t\t\t}", "\t\t\tif ip.IsValid() {\n\t\t\t\tselect {\n\t\t\t\tcase ipC <- ip:\n\t\t\t\tdefault:\n\t\t\t\t}\n\t\t\t}", ["C07"]),
     ("c07-count-before-send", A, "\ttyp := \"unicast\"\n\tif ip.IsMulticast() {", "\ttyp := \"unicast\"\n\tif !ip.Is6() {", ["C07"]),
-    ("c07-global-to-allnodes", A, "\t\tif host.IsUnspecified() {", "\t\tif host.IsUnspecified() || host.IsLoopback() || !host.IsLinkLocalUnicast() && host.Is4In6() {", []),
     ("c07-unicast-to-multicast", A, "\t\tif host.IsUnspecified() {", "\t\tif host.IsUnspecified() || !host.IsLinkLocalUnicast() {", ["C07"]),
     # C08
     ("c08-invert-terminate", A, "\tif !a.terminate() {", "\tif a.terminate() {", ["C08"]),
@@ -85,7 +87,7 @@ MUTANTS = [
     ("c10-retries-7", L, "const retries = 5", "const retries = 7", ["C10"]),
     # C11
     ("c11-skip-done-on-nil", D, "\t\terr = fn(ctx, dctx)\n\t\tif dctx.done != nil {", "\t\terr = fn(ctx, dctx)\n\t\tif dctx.done != nil && err != nil {", ["C11"]),
-    ("c11-restore-true", D, "err := d.state.SetIPv6Autoconf(d.iface, prev)", "err := d.state.SetIPv6Autoconf(d.iface, true)", ["C11"]),
+    ("c11-restore-true", D, "err := d.state.SetIPv6Autoconf(d.iface, prev)", "err := d.state.SetIPv6Autoconf(d.iface, prev || true)", ["C11"]),
     ("c11-notexist-fatal", D, "\t\tcase errors.Is(err, os.ErrNotExist):", "\t\tcase errors.Is(err, os.ErrNotExist) && false:", ["C11"]),
     ("c11-double-done", D, "\t\tif err == nil {\n\t\t\t// No error, all done.\n\t\t\treturn nil", "\t\tif err == nil {\n\t\t\tif dctx.done != nil {\n\t\t\t\t_ = dctx.done()\n\t\t\t}\n\t\t\treturn nil", ["C11"]),
     # C12
@@ -135,7 +137,8 @@ MUTANTS = [
     ("c20-ready-before-wait", S, "\tgo func() {\n\t\twg.Wait()\n\t\t_ = n.Notify(", "\tgo func() {\n\t\t_ = n.Notify(", ["C20"]),
     ("c20-skip-monitor", S, "\t\tcase ifi.Monitor:\n\t\t\tdialer := system.NewDialer(ifi.Name, s.cctx.state, system.Monitor, s.cctx.ll)\n", "\t\tcase ifi.Monitor && len(tasks) == 0:\n\t\t\tdialer := system.NewDialer(ifi.Name, s.cctx.state, system.Monitor, s.cctx.ll)\n", []),
     ("c20-hup-terminal", "internal/corerad/signals_unix.go", "\treturn s != syscall.SIGHUP", "\treturn s != syscall.SIGHUP || true", ["C20"]),
-    ("c20-serve-swallow-error", S, "\t\t\t\tif err := t.Run(ctx); err != nil {\n\t\t\t\t\treturn fmt.Errorf(\"failed to run task %s: %v\", t, err)\n\t\t\t\t}", "\t\t\t\tif err := t.Run(ctx); err != nil && ctx.Err() == nil {\n\t\t\t\t\treturn fmt.Errorf(\"failed to run task %s: %v\", t, err)\n\t\t\t\t}", []),
+    ("c20-serve-first-exit", S, "\t\t\t\treturn nil\n\t\t\t})\n\n\t\t\tgo func() {\n\t\t\t\tdefer wg.Done()", "\t\t\t\tcancel()\n\t\t\t\treturn nil\n\t\t\t})\n\n\t\t\tgo func() {\n\t\t\t\tdefer wg.Done()", ["C20"]),
+    ("c20-serve-swallow-error-OLD", S, "\t\t\t\tif err := t.Run(ctx); err != nil {\n\t\t\t\t\treturn fmt.Errorf(\"failed to run task %s: %v\", t, err)\n\t\t\t\t}", "\t\t\t\tif err := t.Run(ctx); err != nil && ctx.Err() == nil {\n\t\t\t\t\treturn fmt.Errorf(\"failed to run task %s: %v\", t, err)\n\t\t\t\t}", []),
 ]
 
 
@@ -167,13 +170,20 @@ def main():
             if only and mid not in only:
                 continue
             sh(["git", "checkout", "--", "."], cwd=wt)
-            fp = os.path.join(wt, path)
-            src = open(fp).read()
-            if src.count(old) != 1:
-                print("%-28s PATTERN matches %d times - skipped" % (mid, src.count(old)), flush=True)
-                results[mid] = dict(status="pattern-mismatch", repo=head)
+            edits = [(path, old, new)] if isinstance(path, str) else path
+            bad = False
+            for (ep, eo, en) in edits:
+                fp = os.path.join(wt, ep)
+                src = open(fp).read()
+                if src.count(eo) != 1:
+                    print("%-28s PATTERN matches %d times in %s - skipped" % (mid, src.count(eo), ep), flush=True)
+                    results[mid] = dict(status="pattern-mismatch", repo=head)
+                    bad = True
+                    break
+                open(fp, "w").write(src.replace(eo, en))
+            if bad:
                 continue
-            open(fp, "w").write(src.replace(old, new))
+            path = edits[0][0]
             rc, o = sh(["go", "build", "./..."], cwd=wt)
             if rc != 0:
                 print("%-28s does not build: %s" % (mid, o.strip().splitlines()[:2]), flush=True)
